@@ -116,6 +116,9 @@ def normalise(t: T, bound_name: str = "x") -> T:
             return flat[0] if len(flat) == 1 else T("bool", (op, tuple(flat)))
         if x.op == "cmp":
             op, l, r = x.a
+            if op in ("in", "not in") and r.op == "bool" and r.a[0] == "or" and len(r.a[1]) == 2 and (
+                    (r.a[1][1].op in ("tuple", "list") and not r.a[1][1].a[0]) or r.a[1][1] in (sym.const(()), sym.const(""), sym.const(frozenset()))):
+                r = r.a[1][0]           # `x in (xs or ())`: a missing / empty collection has no members either way
             l, r = val(l), val(r)
             if neg:
                 op = NEG[op]
